@@ -38,3 +38,10 @@ Definition CharacterIndexKind : N := 0.
 Definition VarAtomsIndexKind : N := 1.
 Definition AlternatingIndexKind : N := 2.
 Definition FullIndexKind : N := 3.
+
+(** CapScheme constants *)
+Definition csNone : bytes := bos "none".
+Definition csFirst : bytes := bos "first".
+Definition csAll : bytes := bos "all".
+Definition csRandom : bytes := bos "random".
+Definition csOne : bytes := bos "one".
